@@ -11,7 +11,7 @@ PROFILES = ["rel", "chk"]
 SHARD_TIMEOUT = 900
 RULE = ("all 65536 first words x %d adversarial register files (0, 1, 0xFFFFFFFF, 0x7FFFFFFF, 0x80000000, region edges, odd values) x random CCR x "
         "random bus-controller settings, code placed at region ends and in unmapped space; TRAPA #0 with adversarial argument blocks; "
-        "control-line fuzz through run(); both build profiles; distinct = distinct (opcode words, registers, outcome)")
+        "timer / port register histories with every TCR value (also unimplemented clock selections) and programs that program the timer and keep running; control-line fuzz through run(); both build profiles; distinct = distinct (opcode words, registers, outcome)")
 
 ADV = [0, 1, 2, 3, 0xffffffff, 0xfffffffe, 0x7fffffff, 0x80000000, 0x00ffffff, 0x01000000, 0xff000000,
        0xffbf20, 0xffbf1f, 0xffff1f, 0xffff20, 0x400000, 0x3fffff, 0x5fffff, 0x600000, 0xff, 0x100, 0xfee000, 0xffffe9, 0xffffea,
@@ -94,6 +94,38 @@ def generate(tier, seed, info):
         code = [rnd.randrange(256) for _ in range(6)]
         lines.append("id=%x kind=sock tag=%x sock= pc=0 ccr=80 exit=%x er=%s mem=%x:%s ops=run:%x" % (
             cid, tag, rnd.choice(ADV), ",".join("%x" % x for x in er), start & 0xfffffffe, isa.hexb(code), 2000))
+    # peripheral histories: every TCR value (also the unimplemented clock selections), arbitrary timer register contents,
+    # elapsed states 1-255 after each write; port registers with arbitrary values
+    for _ in range(4000 if tier == "quick" else 60000):
+        ops = []
+        for _k in range(rnd.randrange(2, 9)):
+            q = rnd.random()
+            if q < 0.35:
+                ops.append("w8:ffff80:%x" % rnd.randrange(256))
+            elif q < 0.5:
+                ops.append("w8:%x:%x" % (rnd.choice([0xffff82, 0xffff84, 0xffff86, 0xffff88, 0xffff81, 0xffff83, 0xffff89]), rnd.choice([0, 1, 0xff, 0xfe, rnd.randrange(256)])))
+            elif q < 0.9:
+                ops.append("tick:%x" % rnd.choice([1, 2, 7, 8, 9, 63, 64, 255, rnd.randrange(1, 256)]))
+            elif q < 0.95:
+                ops.append("w8:%x:%x" % (rnd.choice([0xfee000 + rnd.randrange(11), 0xffffd0 + rnd.randrange(11)]), rnd.randrange(256)))
+            else:
+                ops.append("port:%x:%x" % (rnd.randrange(0, 14), rnd.randrange(256)))
+        cid += 1
+        lines.append("id=%x kind=timer tag=%x ops=%s" % (cid, tag, ",".join(ops)))
+    # programs that program the timer with any TCR value and keep running (through run(), so update_modules follows)
+    for _ in range(300 if tier == "quick" else 5000):
+        base = rnd.choice([0xffc000, 0x410000])
+        code = isa.enc_mov_imm("b", rnd.randrange(256), 14) + [0x3e, 0x80]
+        for _k in range(rnd.randrange(1, 6)):
+            code += rnd.choice([[0x0a, 0x0e], [0x0b, 0x56], [0x1a, 0x0e], [0x0c, 0xe6]])
+        exit_off = len(code)
+        code += [0x40, 0xfe]
+        er = adv_regs(rnd)
+        er[2] = base
+        er[7] = 0xffff00
+        cid += 1
+        lines.append("id=%x kind=sock tag=%x sock= pc=0 ccr=80 exit=%x er=%s mem=%x:%s ops=run:%x" % (
+            cid, tag, base + exit_off, ",".join("%x" % x for x in er), base, isa.hexb(code), 2000))
     info["cases"] = 2 * len(lines)
     info["exhaustive"] = True
     info["exhaustive_part"] = "all 65536 first instruction words, in both build profiles"
